@@ -1,4 +1,5 @@
 """C09 Date/time codecs (DESIGN.md 5.3, 6 C09; spec/Calendar.tla, MC_Calendar.tla, T_Calendar.tla)."""
+import os
 import random
 
 import core
@@ -141,6 +142,9 @@ def run_and_judge(ctx, cases, name):
 
 
 def run(ctx):
+    if os.environ.get("VERIF_SELFTEST") == "1" or not ctx.quick:
+        selftest(ctx)           # binding self-test: a corrupted recorded field must be rejected
+        ctx.extra["selftest"] = "corrupted field rejected"
     runs = [("MC_Calendar.tla", "MC_Calendar_walk.cfg", None, ["ClosedForms", "EpochCorrect", "EndOfWalk", "day export"]),
             ("MC_Calendar.tla", "MC_Calendar_log.cfg", None, ["LogOk"]),
             ("MC_Calendar.tla", "MC_Calendar_walk_dev.cfg", "EpochCorrect", []),
